@@ -70,6 +70,7 @@ type Config struct {
 	PreparedCache                     proxycore.PreparedCache
 	PCT                               int         // >0: priority-based task choice with that many priority change points (PCT, Burckhardt et al. 2010)
 	ClientTLS                         *tls.Config // if set, the proxy's client-facing listener is a TLS listener with this configuration
+	AuthDSE                           bool        // ... the way a DSE node does it (mechanism name, challenge, credentials)
 	AuthUser, AuthPass                string      // if set, the backend nodes demand password authentication and the proxy is configured with these credentials
 	MaxStreams                        int16       // tuning knob: stream ids per backend connection (0 = the shipped 2048)
 	MaxMessages                       int         // tuning knob: length of a connection's write queue (0 = the shipped 1024)
@@ -229,7 +230,7 @@ func (w *World) AddNode(inCluster bool) *Node {
 	hid[8] = (hid[8] & 0x3f) | 0x80
 	n := &Node{w: w, Name: fmt.Sprintf("n%d", i), IP: ip, Addr: net.JoinHostPort(ip.String(), "9042"), DC: "dc1",
 		HostID: hid, Up: true, InCluster: inCluster, MaxVersion: w.Cfg.BackendMax, DSE: w.Cfg.DSE,
-		Prepared: map[string]string{}, AuthUser: w.Cfg.AuthUser, AuthPass: w.Cfg.AuthPass}
+		Prepared: map[string]string{}, AuthUser: w.Cfg.AuthUser, AuthPass: w.Cfg.AuthPass, AuthDSE: w.Cfg.AuthDSE}
 	w.Nodes = append(w.Nodes, n)
 	return n
 }
